@@ -135,8 +135,8 @@ func driveC08(p *Pool, r *evid.Run) {
 			}
 		}
 		b := 1
-		if r.Tier == "thorough" {
-			b = 2
+		if r.Tier == "thorough" && pl.src == "small" {
+			b = 2 // the deeper bound around the slow-site policies on the smallest transfer only
 		}
 		ex(slow, b)
 		r.Set("slow_roles_"+pl.src, probe[0].Roles)
